@@ -343,17 +343,22 @@ func (s *sim) step(st Step) error {
 			r, err := s.lc.Reconcile(s.ctx, nc)
 			return r.Requeue || r.RequeueAfter > 0, err //nolint:staticcheck
 		})
-	case "NodeRec": // node termination controller
+	case "NodeRec": // node termination controller (Which: the duplicate node "node-2", default node-1)
 		n := node()
+		if st.Which != "" {
+			n.Name = st.Which
+		}
 		if !w.Get(n) {
 			s.skip(st.A, "no-node")
 			return nil
 		}
-		if st.Stale == 0 || s.nView == nil {
-			s.nView = n.DeepCopy()
+		if n.Name == nodeName {
+			if st.Stale == 0 || s.nView == nil {
+				s.nView = n.DeepCopy()
+			}
+			n = s.nView.DeepCopy()
 		}
-		n = s.nView.DeepCopy()
-		s.bracket(actTermination, nodeName, st, nil, func() (bool, error) {
+		s.bracket(actTermination, n.Name, st, nil, func() (bool, error) {
 			r, err := s.term.Reconcile(injection.WithControllerName(s.ctx, actTermination), n)
 			return r.Requeue || r.RequeueAfter > 0, err //nolint:staticcheck
 		})
@@ -406,6 +411,20 @@ func (s *sim) step(st Step) error {
 		if s.cfg.OrphanVA {
 			s.createVA("va-orphan", "pv-orphan")
 		}
+	case "NodeAppears2": // a second Node object for the same instance (kubelet re-registered under another name), synced like the first
+		n1 := node()
+		if !w.Get(n1) || w.Get(&corev1.Node{ObjectMeta: metav1.ObjectMeta{Name: nodeName + "-dup"}}) {
+			s.skip(st.A, "no-node-or-exists")
+			return nil
+		}
+		n2 := &corev1.Node{ObjectMeta: metav1.ObjectMeta{Name: nodeName + "-dup", Labels: map[string]string{}, Finalizers: n1.Finalizers,
+			OwnerReferences: n1.OwnerReferences}, Spec: corev1.NodeSpec{ProviderID: n1.Spec.ProviderID, Taints: n1.Spec.Taints},
+			Status: *n1.Status.DeepCopy()}
+		for k, v := range n1.Labels {
+			n2.Labels[k] = v
+		}
+		n2.Labels[corev1.LabelHostname] = n2.Name
+		w.EnvCreate(n2)
 	case "DeleteClaim":
 		nc := claim()
 		if !w.Get(nc) {
@@ -538,11 +557,16 @@ func (s *sim) step(st Step) error {
 	case "Settle": // the environment goes quiet and cooperates; every controller runs until nothing is left (bounded progress)
 		rounds, claimGone, nodeGone := 0, false, false
 		for ; rounds < 12; rounds++ {
-			claimGone, nodeGone = !w.Get(claim()), !w.Get(node())
+			claimGone = !w.Get(claim())
+			nodeGone = !w.Get(node()) && !w.Get(&corev1.Node{ObjectMeta: metav1.ObjectMeta{Name: nodeName + "-dup"}})
 			if claimGone && nodeGone {
 				break
 			}
 			seq := []Step{{A: "LcRec"}, {A: "NodeRec"}, {A: "QAll"}}
+			dup := w.Get(&corev1.Node{ObjectMeta: metav1.ObjectMeta{Name: nodeName + "-dup"}})
+			if dup {
+				seq = append(seq, Step{A: "NodeRec", Which: nodeName + "-dup"})
+			}
 			pods := &corev1.PodList{}
 			w.List(pods)
 			for i := range pods.Items {
@@ -550,7 +574,11 @@ func (s *sim) step(st Step) error {
 					seq = append(seq, Step{A: "PodGone", Pod: pods.Items[i].Name})
 				}
 			}
-			seq = append(seq, Step{A: "Tick", D: 6}, Step{A: "NodeRec"}, Step{A: "InstanceGone"}, Step{A: "NodeRec"}, Step{A: "LcRec"})
+			seq = append(seq, Step{A: "Tick", D: 6}, Step{A: "NodeRec"}, Step{A: "InstanceGone"}, Step{A: "NodeRec"})
+			if dup {
+				seq = append(seq, Step{A: "NodeRec", Which: nodeName + "-dup"})
+			}
+			seq = append(seq, Step{A: "LcRec"})
 			if rounds >= 3 { // volumes detach late, so that the wait (or the deadline) is exercised first
 				vas := &storagev1.VolumeAttachmentList{}
 				w.List(vas)
